@@ -80,24 +80,40 @@ def same_tuple(a, b):
 
 
 def jsonable(bounds):
-    return [[None if math.isnan(v) else float(v) for v in r] for r in np.asarray(bounds, dtype=float)]
+    def enc(v):
+        if math.isnan(v):
+            return None
+        if math.isinf(v):
+            return "inf" if v > 0 else "-inf"
+        return float(v)
+    return [[enc(v) for v in r] for r in np.asarray(bounds, dtype=float)]
 
 
 def from_jsonable(rows, d):
     if not rows:
         return np.zeros((0, 2 * d))
-    return np.array([[NAN if v is None else v for v in r] for r in rows], dtype=float)
+    return np.array([[NAN if v is None else float(v) for v in r] for r in rows], dtype=float)
 
 
 # ------------------------------------------------------------------------------------------------
 # one tree, many queries
 # ------------------------------------------------------------------------------------------------
-def check_tree(col, sub, bounds, p, page_size, queries):
+def check_tree(col, sub, bounds, p, page_size, queries, copied=None):
     from spatialpandas.spatialindex import HilbertRtree
-    case0 = {"sub": sub, "d": bounds.shape[1] // 2, "bounds": jsonable(bounds), "p": p,
-             "page_size": page_size}
+    case0 = {"sub": sub, "d": bounds.shape[1] // 2, "bounds": jsonable(bounds) if bounds.shape[0] <= 64 else "large:%d" % bounds.shape[0],
+             "p": p, "page_size": page_size, "copied": copied}
     try:
         tree = HilbertRtree(bounds, p=p, page_size=page_size)
+        if copied == "pickle":
+            import pickle
+            tree = pickle.loads(pickle.dumps(tree))
+        elif copied == "deepcopy":
+            import copy
+            tree = copy.deepcopy(tree)
+        elif copied == "pickle_after_query":
+            import pickle
+            tree.intersects(queries[0]) if queries else None
+            tree = pickle.loads(pickle.dumps(tree))
         tb = tuple(float(v) for v in tree.total_bounds)
     except Exception as e:   # construction must never fail
         col.violation("rtree.build", dict(case0, query=None), f"raised {type(e).__name__}: {e}")
@@ -111,6 +127,7 @@ def check_tree(col, sub, bounds, p, page_size, queries):
     n = bounds.shape[0]
     has_nan = bool(np.isnan(bounds).any())
     E_inter, E_cov = oracle_many(bounds, queries)
+    held = []
     for qi, q in enumerate(queries):
         col.count("evaluations")
         einter = np.nonzero(E_inter[qi])[0].tolist()
@@ -125,6 +142,7 @@ def check_tree(col, sub, bounds, p, page_size, queries):
             col.violation("rtree.query_raises", dict(case0, query=list(q)),
                           f"raised {type(e).__name__}: {e}")
             continue
+        r0 = r
         r = sorted(r.tolist())
         c = sorted(c.tolist())
         o = sorted(o.tolist())
@@ -136,6 +154,13 @@ def check_tree(col, sub, bounds, p, page_size, queries):
                           f"covers={c} overlaps={o} expected covers={ecov} overlaps={eov}",
                           has_nan=has_nan)
         col.outcome("inter=%d" % min(len(einter), 3))
+        held.append((qi, r0, r))
+    # the arrays returned by earlier queries must still hold their answers after later queries
+    for qi, arr_obj, want in held:
+        if sorted(arr_obj.tolist()) != want:
+            col.violation("rtree.result_overwritten", dict(case0, query=list(queries[qi])),
+                          f"answer of query {queries[qi]} changed after later queries on the same index: {sorted(arr_obj.tolist())} vs {want}")
+            break
     col.sample(dict(case0, query=list(queries[len(queries) // 2]) if queries else None))
 
 
@@ -348,10 +373,45 @@ def run(ctx):
                         if idx % NCH != ci:
                             continue
                         qs = shape_queries(b)
-                        for p in plist_shape:
-                            check_tree(col, "shape:%s:%s" % (fam, vname), b, p, ps, qs)
+                        for pi, p in enumerate(plist_shape):
+                            check_tree(col, "shape:%s:%s" % (fam, vname), b, p, ps, qs,
+                                       copied=(None, "pickle", "deepcopy", "pickle_after_query")[(idx + pi) % 4])
         if ci == 0:
             check_seam(col)
+        if ci in (4, 5):
+            # boxes with infinite extent are boxes too (a strip, a half plane, everything)
+            inf = float("inf")
+            if ci == 4:
+                rows = [[-inf, 1], [2, inf], [-inf, inf], [0, 1], [1, 3], [NAN, NAN]]
+                qs = tie_queries(1, [-1, 0, 0.5, 1, 2, 3, 4])
+                d = 1
+            else:
+                rows = [[-inf, 0, 1, 1], [0, -inf, 1, inf], [-inf, -inf, inf, inf], [0, 0, 1, 1], [2, 2, inf, 3], [NAN] * 4]
+                qs = tie_queries(2, [-1, 0, 1, 3])
+                d = 2
+            for n in (1, 2, 3):
+                if d == 2 and n == 3:
+                    continue
+                for seq in itertools.product(range(len(rows)), repeat=n):
+                    b = np.array([rows[i] for i in seq], dtype=float).reshape(n, 2 * d)
+                    for ps in (1, 2, 512):
+                        for p in (1, 10):
+                            check_tree(col, "inf%d" % d, b, p, ps, qs)
+        if ci in (1, 2, 3):
+            for n, nvalid in ((300, 40), (300, 255), (66000, 30)):
+                if (n == 66000) != (ci == 3):
+                    continue
+                b = np.full((n, 4), NAN)
+                vi = np.arange(n - nvalid, n) if ci != 2 else np.arange(n)[:: max(1, n // nvalid)][:nvalid] + (n % 7)
+                vi = np.clip(vi, 0, n - 1)
+                b[vi, 0] = (vi % 9).astype(float)
+                b[vi, 1] = (vi % 5).astype(float)
+                b[vi, 2] = b[vi, 0] + 1 + (vi % 2)
+                b[vi, 3] = b[vi, 1] + 1
+                qs = [(0.0, 0.0, 3.0, 3.0), (2.0, 1.0, 9.0, 2.0), (-1.0, -1.0, 20.0, 20.0), (4.0, 4.0, 4.0, 4.0)]
+                for cp in (None, "pickle", "deepcopy"):
+                    for ps in (1, 7, 512):
+                        check_tree(col, "large_nan", b, 10, ps, qs, copied=cp)
 
     core.pmap(ctx, work, NCH)
     ctx.rule = ("complete enumeration of (i) every sequence of n rows over all closed intervals on a "
@@ -374,7 +434,9 @@ def replay(ctx, case):
     if case["sub"] == "seam":
         check_seam(col)
         return [v for v in col.violations if v["case"].get("kind") == case["kind"]]
+    if isinstance(case["bounds"], str):
+        raise core.HarnessError("large case: rerun the check (the array is generated, not stored)")
     b = from_jsonable(case["bounds"], case["d"])
     qs = [tuple(case["query"])] if case.get("query") else []
-    check_tree(col, case["sub"], b, case["p"], case["page_size"], qs)
+    check_tree(col, case["sub"], b, case["p"], case["page_size"], qs, copied=case.get("copied"))
     return col.violations
